@@ -484,6 +484,9 @@ func vfC15SchedScenarios(thorough bool) []*vfQScenario {
 		mk("two-blocked-pushers-cap2", 2, l("a", "b"), l("push:c"), l("push:d"), l("pop1", "pop1")),
 		mk("blocked-pushers-urgent-cap2", 2, l("a", "b"), l("upush:c"), l("push:d"), l("pop1"), l("pop2")),
 		mk("two-blocked-poppers-cap2", 2, nil, l("pop1"), l("pop2"), l("nbpush:a", "nbpush:b")),
+		// two parked poppers, one push (which wakes one of them), Close right behind it: Close wakes whoever is parked
+		mk("two-poppers-push-close", 2, nil, l("pop1"), l("pop2"), l("nbpush:a", "close")),
+		mk("two-poppers-push-vs-close", 1, nil, l("pop1"), l("pop2"), l("nbpush:a"), l("close")),
 	}
 	if thorough {
 		out = append(out,
